@@ -84,6 +84,10 @@ struct Prep {
     cp_content: Content,
 }
 
+/// one invoiced payment hash shared by the prepared updates of both channels; the approved
+/// amount covers the HTLC of ONE channel only
+const SHARED_HASH: [u8; 32] = [0xA7; 32];
+
 struct Base {
     cfg: WorldCfg,
     store: Store,
@@ -117,6 +121,13 @@ impl Base {
         }
         let mut preps = vec![];
         let mut fresh_tag = tag << 20;
+        // half of the base worlds carry an approved keysend of 70_000 sat for SHARED_HASH and prepared
+        // updates that each put 60_000 sat in flight for it: any single one is fine, two are not
+        let with_shared_htlc = rng.bool();
+        if with_shared_htlc {
+            let payee = PublicKey::from_secret_key(&secp, &SecretKey::from_slice(&[5; 32]).unwrap());
+            world.node.add_keysend(payee, PaymentHash(SHARED_HASH), 70_000_000).ok()?;
+        }
         let nready = 2;
         for ci in 0..nready {
             let dbid = ci as u64 + 1;
@@ -177,6 +188,11 @@ impl Base {
             // prepare the next holder commitment; sometimes leave it pending (validated, not revoked)
             let mut trial = bal.clone();
             trial.feerate = rng.range(400, 3000) as u32;
+            if with_shared_htlc && trial.holder_sat > 200_000 {
+                trial.holder_sat -= 60_000;
+                let h = world.node.get_chain_height();
+                trial.offered.push(lightning_signer::tx::tx::HTLCInfo2 { value_sat: 60_000, payment_hash: PaymentHash(SHARED_HASH), cltv_expiry: h + 50 });
+            }
             let next_content = trial.content(&setup).unwrap_or(last_content.clone());
             let sigs = m.cp_sign_holder_commitment(&secp, n, &next_content);
             let pending = rng.bool();
@@ -379,13 +395,15 @@ fn run_sequential(base: &Base, secp: &Secp256k1<All>, threads: &[Vec<Req>], orde
 
 enum ConcResult {
     Done(Outcome),
-    Deadlock(sched::Deadlock, Vec<String>),
+    /// deadlock, trace, index of the request each thread was executing
+    Deadlock(sched::Deadlock, Vec<String>, Vec<usize>),
     Timeout,
 }
 
 fn run_concurrent(base: &Base, threads: &[Vec<Req>], seed: u64, strategy: Strategy) -> Result<(ConcResult, u64, u64, Vec<(String, String)>), String> {
     let world = Arc::new(base.instantiate()?);
     let sch = Sched::new(threads.len(), seed, strategy);
+    let current: Arc<Vec<std::sync::atomic::AtomicUsize>> = Arc::new((0..threads.len()).map(|_| std::sync::atomic::AtomicUsize::new(0)).collect());
     let mut replies: Vec<Vec<String>> = vec![];
     std::thread::scope(|s| {
         let mut handles = vec![];
@@ -393,13 +411,21 @@ fn run_concurrent(base: &Base, threads: &[Vec<Req>], seed: u64, strategy: Strate
             let world = world.clone();
             let sch = sch.clone();
             let reqs = reqs.clone();
+            let current = current.clone();
             handles.push(s.spawn(move || {
                 let secp = Secp256k1::new();
                 let mut out = vec![];
                 let r = std::panic::catch_unwind(std::panic::AssertUnwindSafe(|| {
                     sch.enter(i);
-                    for req in reqs.iter() {
-                        out.push(base.exec(&world, &secp, req));
+                    for (qi, req) in reqs.iter().enumerate() {
+                        current[i].store(qi, std::sync::atomic::Ordering::SeqCst);
+                        let rep = base.exec(&world, &secp, req);
+                        let aborted = rep == "aborted";
+                        out.push(rep);
+                        if aborted {
+                            // the schedule was aborted (deadlock or watchdog) while this request was blocked
+                            break;
+                        }
                     }
                 }));
                 let _ = r;
@@ -415,7 +441,8 @@ fn run_concurrent(base: &Base, threads: &[Vec<Req>], seed: u64, strategy: Strate
     let th = sch.trace_hash();
     let edges = sch.edges();
     if let Some(d) = sch.take_deadlock() {
-        return Ok((ConcResult::Deadlock(d, sch.trace()), steps, th, edges));
+        let cur: Vec<usize> = current.iter().map(|c| c.load(std::sync::atomic::Ordering::SeqCst)).collect();
+        return Ok((ConcResult::Deadlock(d, sch.trace(), cur), steps, th, edges));
     }
     if sch.timed_out() {
         return Ok((ConcResult::Timeout, steps, th, edges));
@@ -513,52 +540,93 @@ fn main() {
                     ConcResult::Timeout => {
                         r.count("schedule_watchdog_timeouts");
                     }
-                    ConcResult::Deadlock(d, trace) => {
+                    ConcResult::Deadlock(d, trace, cur) => {
                         r.count("deadlocks");
-                        // signature: the minimal wait-for cycle, as "held>wanted" per thread in the cycle
-                        // (held = the lock of this thread that its predecessor in the cycle waits for)
+                        // The minimal wait-for cycle; one finding per EDGE of the cycle:
+                        //   "<request kind> holds <lock class> (awaited by its predecessor) and waits for <lock class>".
+                        // A deadlock all of whose edges are listed as known findings is a known deadlock; any
+                        // edge that is not listed (a request kind acquiring locks in a new order) is reported.
                         let want: BTreeMap<usize, (String, usize)> = d.waits.iter().map(|(t, w, o)| (*t, (lock_name(w), *o))).collect();
                         let mut cycle_threads: Vec<usize> = vec![];
                         if let Some((&start, _)) = want.iter().next() {
                             let mut seen_at: BTreeMap<usize, usize> = BTreeMap::new();
                             let mut path = vec![];
-                            let mut cur = start;
+                            let mut cur_t = start;
                             loop {
-                                if let Some(&pos) = seen_at.get(&cur) {
+                                if let Some(&pos) = seen_at.get(&cur_t) {
                                     cycle_threads = path[pos..].to_vec();
                                     break;
                                 }
-                                seen_at.insert(cur, path.len());
-                                path.push(cur);
-                                match want.get(&cur) {
-                                    Some((_, o)) if *o != usize::MAX => cur = *o,
+                                seen_at.insert(cur_t, path.len());
+                                path.push(cur_t);
+                                match want.get(&cur_t) {
+                                    Some((_, o)) if *o != usize::MAX => cur_t = *o,
                                     _ => break,
                                 }
                             }
                         }
                         let mut cyc: Vec<String> = vec![];
+                        let mut edges_sig: Vec<String> = vec![];
                         for (pos, t) in cycle_threads.iter().enumerate() {
                             let pred = cycle_threads[(pos + cycle_threads.len() - 1) % cycle_threads.len()];
                             let held = want.get(&pred).map(|x| x.0.clone()).unwrap_or_default();
                             let wanted = want.get(t).map(|x| x.0.clone()).unwrap_or_default();
                             cyc.push(format!("{}>{}", held, wanted));
+                            let kind = kinds[*t].get(cur[*t]).cloned().unwrap_or("?");
+                            edges_sig.push(format!("c20:deadlock-edge:{}:{}>{}", kind, held, wanted));
                         }
                         cyc.sort();
-                        let mut reqs: Vec<String> = cycle_threads.iter().map(|t| kinds[*t].join("/")).collect();
-                        reqs.sort();
-                        r.set_add("deadlock_request_pairs", &reqs.join(" || "));
                         let cyc_only = cyc.join("|");
                         r.set_add("deadlock_cycles", &cyc_only);
-                        let sig = format!("c20:deadlock:[{}]", cyc_only);
-                        if deadlock_reported.insert(sig.clone()) {
-                            r.violation(&sig, json!({"seed": cli.seed, "shard": shard, "set": set, "schedule": k, "threads": format!("{:?}", threads), "requests_in_cycle": reqs,
-                                "waits(thread,wanted,owner)": d.waits.iter().map(|(t, w, o)| json!([t, lock_name(w), o])).collect::<Vec<_>>(),
-                                "holds": d.holds.iter().map(|h| h.iter().map(|x| lock_name(x)).collect::<Vec<_>>()).collect::<Vec<_>>(),
-                                "trace_tail": trace.iter().rev().take(40).rev().map(|s| s.clone()).collect::<Vec<_>>() }));
+                        let mut reqs: Vec<String> = cycle_threads.iter().map(|t| kinds[*t].get(cur[*t]).cloned().unwrap_or("?").to_string()).collect();
+                        reqs.sort();
+                        r.set_add("deadlock_request_sets", &format!("{} :: {}", reqs.join(" || "), cyc_only));
+                        for sig in edges_sig.iter() {
+                            if deadlock_reported.insert(sig.clone()) {
+                                r.violation(sig, json!({"seed": cli.seed, "shard": shard, "set": set, "schedule": k, "threads": format!("{:?}", threads), "cycle": cyc_only, "requests_in_cycle": reqs, "all_edges_of_this_deadlock": edges_sig,
+                                    "waits(thread,wanted,owner)": d.waits.iter().map(|(t, w, o)| json!([t, lock_name(w), o])).collect::<Vec<_>>(),
+                                    "holds": d.holds.iter().map(|h| h.iter().map(|x| lock_name(x)).collect::<Vec<_>>()).collect::<Vec<_>>(),
+                                    "trace_tail": trace.iter().rev().take(40).rev().map(|s| s.clone()).collect::<Vec<_>>() }));
+                            } else {
+                                r.count(&format!("violation:{}", sig));
+                            }
                         }
                     }
                     ConcResult::Done(out) => {
                         r.count("schedules_completed");
+                        // C01 under concurrency: every secret disclosed by a revoke reply must belong to a
+                        // commitment whose successor was validated (in the prepared state, or by a
+                        // validate request of this very set that returned Ok)
+                        for (t, reqs) in threads.iter().enumerate() {
+                            for (qi, q) in reqs.iter().enumerate() {
+                                if let Req::Revoke { c } = q {
+                                    let rep = out.replies.get(t).and_then(|x| x.get(qi)).cloned().unwrap_or_default();
+                                    if let Some(pos) = rep.find("Some(\"") {
+                                        let hexs: String = rep[pos + 6..].chars().take(64).collect();
+                                        if let Ok(bytes) = hex::decode(&hexs) {
+                                            if bytes.len() == 32 {
+                                                let mut sec = [0u8; 32];
+                                                sec.copy_from_slice(&bytes);
+                                                let pr = &base.preps[*c];
+                                                let seed = pr.m.holder_commitment_seed.unwrap();
+                                                r.count("c01_under_concurrency.secrets_checked");
+                                                let validated_now = pr.pending
+                                                    || threads.iter().enumerate().any(|(t2, rs)| rs.iter().enumerate().any(|(q2, x)| matches!(x, Req::ValidateHolder { c: c2 } if c2 == c) && out.replies[t2].get(q2).map(|s| s.starts_with("ok")).unwrap_or(false)));
+                                                match oracle::identify_secret(&seed, &sec, pr.next_holder + 8) {
+                                                    Some(k) => {
+                                                        let ok = k + 1 < pr.next_holder || (k + 1 == pr.next_holder && validated_now);
+                                                        if !ok {
+                                                            r.violation("c20:c01-violated-under-concurrency:secret-disclosed-without-validated-successor", json!({"seed": cli.seed, "shard": shard, "set": set, "schedule": k, "threads": format!("{:?}", threads), "replies": out.replies, "disclosed": k, "next_holder": pr.next_holder, "pending": pr.pending}));
+                                                        }
+                                                    }
+                                                    None => r.count("c01_under_concurrency.unidentified"),
+                                                }
+                                            }
+                                        }
+                                    }
+                                }
+                            }
+                        }
                         if refs.contains(&out) {
                             r.count("linearizable");
                         } else {
